@@ -411,7 +411,10 @@ impl PayloadHistory {
             match delta.serial().partial_cmp(&serial) {
                 Some(cmp::Ordering::Greater) => return None,
                 Some(cmp::Ordering::Equal) => break,
-                _ => continue
+                Some(cmp::Ordering::Less) => continue,
+                // Serials exactly half the number space apart cannot be
+                // compared. We never issued such a serial.
+                None => return None
             }
         }
 
